@@ -10,8 +10,8 @@ Inductive pobj :=
 | PArr (l : list pobj) | PDict (d : list (list N * pobj)) | PRef (n g : N).
 
 Inductive tok :=
-| TInt (z : Z) | TReal (sp : list N) | TStr (s : list N) | TName (n : list N)
-| TKw (w : list N) | TArrO | TArrC | TDictO | TDictC.
+| StInt (z : Z) | StReal (sp : list N) | StStr (s : list N) | StName (n : list N)
+| StKw (w : list N) | StArrO | StArrC | StDictO | StDictC.
 
 (* 7.2.2: white space is NUL HT LF FF CR SP; delimiters ( ) < > [ ] { } / % *)
 Definition is_ws (c : N) : bool := (c =? 0) || (c =? 9) || (c =? 10) || (c =? 12) || (c =? 13) || (c =? 32).
@@ -82,7 +82,7 @@ Definition parse_number (s : list N) : option tok :=
   | [] => None
   | _ =>
       if all_digits body then
-        let v := Z.of_N (dec_value body) in Some (TInt (if neg then (- v)%Z else v))
+        let v := Z.of_N (dec_value body) in Some (StInt (if neg then (- v)%Z else v))
       else
         (* real: digits with exactly one '.', at least one digit *)
         let fix split_dot (l : list N) : option (list N * list N) :=
@@ -93,7 +93,7 @@ Definition parse_number (s : list N) : option tok :=
             end in
         match split_dot body with
         | Some (a, b) => if all_digits a && all_digits b && negb (Nat.eqb (length a + length b) 0)
-                         then Some (TReal s) else None
+                         then Some (StReal s) else None
         | None => None
         end
   end.
@@ -162,14 +162,14 @@ Definition next_tok (s0 : list N) : option (tok * list N) :=
   let s := skip_ws s0 in
   match s with
   | [] => None
-  | 40 :: t => match lit_string 0 t [] with Some (v, r) => Some (TStr v, r) | None => None end
-  | 60 :: 60 :: t => Some (TDictO, t)
-  | 60 :: t => match hex_string t None [] with Some (v, r) => Some (TStr v, r) | None => None end
-  | 62 :: 62 :: t => Some (TDictC, t)
-  | 91 :: t => Some (TArrO, t)
-  | 93 :: t => Some (TArrC, t)
+  | 40 :: t => match lit_string 0 t [] with Some (v, r) => Some (StStr v, r) | None => None end
+  | 60 :: 60 :: t => Some (StDictO, t)
+  | 60 :: t => match hex_string t None [] with Some (v, r) => Some (StStr v, r) | None => None end
+  | 62 :: 62 :: t => Some (StDictC, t)
+  | 91 :: t => Some (StArrO, t)
+  | 93 :: t => Some (StArrC, t)
   | 47 :: t => let (w, r) := take_regular t in
-               match name_unescape w with Some n => Some (TName n, r) | None => None end
+               match name_unescape w with Some n => Some (StName n, r) | None => None end
   | c :: _ =>
       if is_delim c then None else
       let (w, r) := take_regular s in
@@ -177,7 +177,7 @@ Definition next_tok (s0 : list N) : option (tok * list N) :=
       | [] => None
       | h :: _ => if is_digit h || (h =? 43) || (h =? 45) || (h =? 46)
                   then match parse_number w with Some t => Some (t, r) | None => None end
-                  else Some (TKw w, r)
+                  else Some (StKw w, r)
       end
   end.
 
@@ -196,46 +196,46 @@ Fixpoint parse_obj (fuel : nat) (s : list N) : option (pobj * list N) :=
       | None => None
       | Some (t, r) =>
           match t with
-          | TInt z =>
+          | StInt z =>
               (* n g R ? *)
               match next_tok r with
-              | Some (TInt g, r2) =>
+              | Some (StInt g, r2) =>
                   match next_tok r2 with
-                  | Some (TKw w, r3) =>
+                  | Some (StKw w, r3) =>
                       if beq w kw_R && (0 <? z)%Z && (0 <=? g)%Z then Some (PRef (Z.to_N z) (Z.to_N g), r3)
                       else Some (PInt z, r)
                   | _ => Some (PInt z, r)
                   end
               | _ => Some (PInt z, r)
               end
-          | TReal sp => Some (PReal sp, r)
-          | TStr v => Some (PStr v, r)
-          | TName n => Some (PName n, r)
-          | TKw w => if beq w kw_true then Some (PBool true, r)
+          | StReal sp => Some (PReal sp, r)
+          | StStr v => Some (PStr v, r)
+          | StName n => Some (PName n, r)
+          | StKw w => if beq w kw_true then Some (PBool true, r)
                      else if beq w kw_false then Some (PBool false, r)
                      else if beq w kw_null then Some (PNull, r)
                      else None
-          | TArrO =>
+          | StArrO =>
               (fix arr (k : nat) (s1 : list N) (acc : list pobj) : option (pobj * list N) :=
                  match k with
                  | O => None
                  | S k' =>
                      match next_tok s1 with
-                     | Some (TArrC, r1) => Some (PArr (rev' acc), r1)
+                     | Some (StArrC, r1) => Some (PArr (rev' acc), r1)
                      | _ => match parse_obj f s1 with
                             | Some (o, r1) => arr k' r1 (o :: acc)
                             | None => None
                             end
                      end
                  end) f r []
-          | TDictO =>
+          | StDictO =>
               (fix dict (k : nat) (s1 : list N) (acc : list (list N * pobj)) : option (pobj * list N) :=
                  match k with
                  | O => None
                  | S k' =>
                      match next_tok s1 with
-                     | Some (TDictC, r1) => Some (PDict (rev' acc), r1)
-                     | Some (TName key, r1) =>
+                     | Some (StDictC, r1) => Some (PDict (rev' acc), r1)
+                     | Some (StName key, r1) =>
                          match parse_obj f r1 with
                          | Some (o, r2) => dict k' r2 ((key, o) :: acc)
                          | None => None
